@@ -10,6 +10,7 @@ import (
 	"path/filepath"
 	"sort"
 	"strings"
+	"time"
 	"sync"
 
 	"verifharness/c20ops"
@@ -83,9 +84,9 @@ func opNames(seq []int) []string {
 func c20SeqSub() *engine.Sub {
 	return &engine.Sub{
 		Name: "sequential-state-graph",
-		Rule: "explicit-state search: state = deep structural dump of the shared invocation and its two delegations (private fields via reflect/unsafe, slices in storage order, maps sorted); transitions = each of 29 read-only operations; all operation sequences up to the depth bound from every token variant (argument/metadata keys inserted in every order of 0..3 keys, constructed and decoded). Invariant in every state: the dump equals the initial dump (the reachable graph has one state per variant) and the operation's result equals its result when run alone on a fresh equal token; non-trivial = sequences of length >= 2",
+		Rule: "explicit-state search: state = deep structural dump of the shared invocation and its two delegations (private fields via reflect/unsafe, slices in storage order, maps sorted); transitions = each of 36 read-only operations; all operation sequences up to the depth bound from every token variant (argument/metadata keys inserted in every order of 0..3 keys, constructed and decoded). Invariant in every state: the dump equals the initial dump (the reachable graph has one state per variant) and the operation's result equals its result when run alone on a fresh equal token; non-trivial = sequences of length >= 2",
 		Bound: func(t string) string {
-			return fmt.Sprintf("24 token variants x all sequences of <=%d operations out of 29", tierN(t, 2, 3))
+			return fmt.Sprintf("26 token variants x all sequences of <=%d operations out of 36", tierN(t, 2, 3))
 		},
 		Setup: func(string) error {
 			// a fixture whose chain is denied before the policies are reached would make most of the
@@ -196,9 +197,9 @@ func c20SchedSub() *engine.Sub {
 		Rule: "cooperative scheduler: logical threads each run one read-only operation on the same shared tokens; scheduling points are the callback seams of the library (Loader.GetDelegation, the argument hook, the first 12 and then every 24th Write of the streaming encoders, every yield of Arguments().Iter / Meta().Iter). All schedules up to the preemption bound are enumerated (stateless DFS, prefix replay, divergence = hard error). Oracle: every thread's result equals its run-alone result on a fresh equal token and the final dump equals the initial dump; non-trivial = schedules with at least one context switch before a thread finished",
 		Bound: func(t string) string {
 			if t == "thorough" {
-				return "5 token variants x all ordered pairs of 29 operations with <=2 preemptions, and all ordered triples of 8 seam-bearing operations with <=1 preemption"
+				return "5 token variants x all ordered pairs of 36 operations with <=2 preemptions, and all ordered triples of 8 seam-bearing operations with <=1 preemption"
 			}
-			return "5 token variants x all ordered pairs of 29 operations with <=1 preemption"
+			return "5 token variants x all ordered pairs of 36 operations with <=1 preemption"
 		},
 		Gen: func(tier string, emit func(any) bool) {
 			for _, v := range c20SchedVariants() {
@@ -335,9 +336,9 @@ func c20RaceSub() *engine.Sub {
 		Name:    "race-detector-pairs",
 		Serial:  true,
 		Replays: 1, // each replay is a separate `go test -race` process; the detector's verdict is happens-before based
-		Rule:    "free-running pass: the same operation bodies, every unordered pair of the 29 operations (an operation with itself included) on 4 token variants, two goroutines released by a barrier, as sub-tests of `go test -race -tags verif ./racepass`, built from /repo's working tree. A sub-test the detector marks failed ('race detected during execution of test') is a violation attributed to that pair. The verdict is happens-before based, so it does not depend on the actual timing of the two goroutines; non-trivial = all pairs",
+		Rule:    "free-running pass: the same operation bodies, every unordered pair of the 36 operations (an operation with itself included) on 4 token variants, two goroutines released by a barrier, as sub-tests of `go test -race -tags verif ./racepass`, built from /repo's working tree. A sub-test the detector marks failed ('race detected during execution of test') is a violation attributed to that pair. The verdict is happens-before based, so it does not depend on the actual timing of the two goroutines; non-trivial = all pairs",
 		Bound: func(string) string {
-			return "435 unordered pairs x 4 variants + first-use of lazily built globals from 2 goroutines"
+			return "666 unordered pairs x 4 variants + first-use of lazily built globals from 2 goroutines"
 		},
 		Gen: func(tier string, emit func(any) bool) {
 			emit(&c20RaceCase{})
@@ -445,11 +446,33 @@ func raceLocations(out string) string {
 	return strings.Join(locs, "~")
 }
 
+// c20HangHandler: read-only operations "may run concurrently ... and each returns a result": two operations
+// that complete when run alone (pass 1 runs every one of them alone first) and do not come back when they are
+// interleaved at a callback seam or at a synchronization operation are waiting for each other - a violation.
+// A case of the sequential pass that does not come back stays a harness error.
+func c20HangHandler(sub *engine.Sub, caseJSON string, limit time.Duration) {
+	if sub.Name == "sequential-state-graph" || sub.Name == "race-detector-pairs" {
+		fmt.Fprintf(os.Stderr, "harness error: case %s of sub-check %s did not finish within %s (the code under test or the harness hangs)\n", caseJSON, sub.Name, limit)
+		os.Exit(2)
+	}
+	dir := filepath.Join(engine.OutDir(), "replays", "C20")
+	os.MkdirAll(dir, 0o755)
+	path := filepath.Join(dir, "operations-wait-for-each-other-"+strings.ReplaceAll(sub.Name, "/", "_")+".json")
+	body := fmt.Sprintf("{\n \"property\": \"C20\",\n \"sub\": %q,\n \"class\": \"operations-wait-for-each-other\",\n \"msg\": \"the interleaved operations did not return within %s although each returns when run alone (one of them is parked at a callback seam or a scheduling point while the other waits for it)\",\n \"case\": %s\n}\n", sub.Name, limit, caseJSON)
+	os.WriteFile(path, []byte(body), 0o644)
+	fmt.Printf("  violation class=operations-wait-for-each-other sub=%s: case %s did not return within %s\n", sub.Name, caseJSON, limit)
+	fmt.Printf("VIOLATION property=C20 replay=%s\n", path)
+	os.Exit(1)
+}
+
 func C20() *engine.Check {
+	engine.HangHandler = c20HangHandler
+	sched, conc := c20SchedSub(), c20ConcSub()
+	sched.HangLimit, conc.HangLimit = 45*time.Second, 90*time.Second
 	return &engine.Check{
 		Property: "C20",
 		Level:    "model_checking",
-		Subs:     []*engine.Sub{c20SeqSub(), c20SchedSub(), c20ConcSub(), c20RaceSub()},
+		Subs:     []*engine.Sub{c20SeqSub(), sched, conc, c20RaceSub()},
 		Assumptions: []string{
 			"go-ucan has no synchronisation operations of its own; the cooperative scheduler interleaves at the points where read-only operations call back into caller code, and sub-operation interleavings are covered by the separate free-running race-detector pass over operation pairs",
 			"Ed25519 keys (deterministic signatures) so that sealing results are comparable; Meta.String is compared as a set of lines because it iterates a Go map",
